@@ -203,7 +203,33 @@ fn layout_check(c: &LayoutCase, ptr: usize, props: &str, out: &mut Vec<Fail>) {
     match (&o, &exp) {
         (Outcome::Panic(m), _) => { if props.contains("C12") || props.contains("C03") { fail("no panic".into(), format!("PANIC({m})"), out) } }
         (Outcome::Err(m), Some(e)) => { if props.contains("C03") { fail(format!("accepted (size {}, align {})", e.size, e.align), format!("ERR({m})"), out) } }
-        (Outcome::Ok(_), None) => { if props.contains("C03") { fail("rejected".into(), "accepted".into(), out) } }
+        (Outcome::Ok(st), None) => {
+            if props.contains("C03") { fail("rejected".into(), "accepted".into(), out) }
+            // C01 speaks about every *accepted* description, whether or not it should have been accepted:
+            // a field with an explicit address sits at that offset, a field without one starts where its
+            // predecessor ends
+            if props.contains("C01") {
+                if let Some((_, td)) = get_type(st, "m::T") {
+                    let offs = offsets(td, st, ptr);
+                    let mut prev_end: Option<u128> = Some(if c.vftable { ptr as u128 } else { 0 });
+                    for (i, (t, a)) in c.fields.iter().enumerate() {
+                        let name = format!("f{i}");
+                        let got = offs.iter().find(|(n, _, _)| *n == name).map(|x| (x.1, x.2));
+                        let ty = TYS[*t];
+                        if (ty.size)(ptr) == 0 && ty.arrayish { continue; }
+                        let want = match a { Some(a) => Some(*a), None => prev_end };
+                        match (got, want) {
+                            (Some((g, sz)), Some(w)) => {
+                                if g != w { fail(format!("field {name} at offset {w}"), format!("field {name} at {g}; regions {offs:?}"), out); }
+                                prev_end = Some(g + sz);
+                            }
+                            (Some((g, sz)), None) => prev_end = Some(g + sz),
+                            (None, _) => { fail(format!("field {name} present"), format!("regions {offs:?}"), out); prev_end = None; }
+                        }
+                    }
+                }
+            }
+        }
         (Outcome::Err(_), None) => {}
         (Outcome::Ok(st), Some(e)) => {
             let Some((isr, td)) = get_type(st, "m::T") else { fail("type m::T resolved".into(), "missing".into(), out); return; };
